@@ -279,7 +279,8 @@ def run_property(prop: str, tier: str, seed: int, repo: str, only: Optional[str]
                 print(f'KNOWN-FINDING: property={prop} {v.key} {known_keys[v.key].text}')
             continue
         new_violations.append(v)
-    rdir = os.path.join(VERIF, 'replays', prop)
+    scratch = os.path.abspath(repo) != '/repo'
+    rdir = os.path.join(VERIF, 'replays', prop) if not scratch else os.path.join(repo, 'verif_replays', prop)
     seen_keys = set()
     for v in new_violations:
         if v.key in seen_keys:
@@ -340,7 +341,7 @@ def run_property(prop: str, tier: str, seed: int, repo: str, only: Optional[str]
         'wall_s': round(time.time() - t0, 2),
         'violations': len(seen_keys),
     }
-    if not only:
+    if not only and not scratch:
         os.makedirs(os.path.join(VERIF, 'evidence'), exist_ok=True)
         with open(os.path.join(VERIF, 'evidence', f'{prop}.json'), 'w') as f:
             json.dump(evidence, f, indent=1, default=repr)
@@ -383,6 +384,45 @@ def write_lock(props: list[str], repo: str) -> None:
         json.dump(lock, f, indent=1, sort_keys=True)
 
 
+def selftest(prop: str) -> int:
+    """Apply each catalogued mutation of the property's sidecar to a scratch copy of /repo/src and run the check
+    against it: a breaking mutation must give exit 1 naming the expected obligation/check, a harmless one exit 0."""
+    import shutil
+    import subprocess
+    import tempfile
+    mod = find_module(prop)
+    muts = [(m, True) for m in getattr(mod, 'MUTATIONS', [])] + [(m, False) for m in getattr(mod, 'HARMLESS', [])]
+    bad = 0
+    for m, breaking in muts:
+        d = tempfile.mkdtemp(prefix=f'selftest_{prop}_')
+        try:
+            shutil.copytree('/repo/src', os.path.join(d, 'src'), ignore=shutil.ignore_patterns('__pycache__'))
+            if os.path.isdir('/repo/tests'):
+                os.symlink('/repo/tests', os.path.join(d, 'tests'))
+            path = os.path.join(d, 'src', 'srctools', m['file'])
+            text = open(path, encoding='utf8').read()
+            if text.count(m['old']) != 1:
+                print(f'SELFTEST {prop} {m["name"]}: pattern occurs {text.count(m["old"])} times -- catalogue stale')
+                bad += 1
+                continue
+            open(path, 'w', encoding='utf8').write(text.replace(m['old'], m['new']))
+            r = subprocess.run([sys.executable, '-m', 'pyvc.driver', prop, '--repo', d, '--tier', 'quick'],
+                               cwd=VERIF, capture_output=True, text=True, timeout=1800)
+            out = r.stdout
+            if breaking:
+                ok = r.returncode == 1 and 'VIOLATION' in out and (m.get('expect', '') in out)
+            else:
+                ok = r.returncode == 0 and 'VIOLATION' not in out
+            print(f'SELFTEST {prop} {m["name"]}: {"ok" if ok else "UNEXPECTED"} (exit {r.returncode}, '
+                  f'{"breaking" if breaking else "harmless"})')
+            if not ok:
+                bad += 1
+                print('   ' + '\n   '.join(out.strip().splitlines()[-12:]))
+        finally:
+            shutil.rmtree(d, ignore_errors=True)
+    return 0 if not bad else 3
+
+
 def replay(prop: str, path: str, repo: str) -> int:
     from . import extract
     extract.set_repo(repo)
@@ -416,6 +456,7 @@ def main(argv=None) -> int:
     ap.add_argument('--replay')
     ap.add_argument('--only')
     ap.add_argument('--lock', action='store_true')
+    ap.add_argument('--selftest', action='store_true')
     args = ap.parse_args(argv)
     seed = int(os.environ.get('VERIF_SEED', '0') or 0)
     sys.path.insert(0, VERIF)
@@ -424,6 +465,8 @@ def main(argv=None) -> int:
             props = [args.prop] if args.prop != 'all' else sorted({f[:3] for f in os.listdir(os.path.join(VERIF, 'contracts')) if re.match(r'C\d\d_', f)})
             write_lock(props, args.repo)
             return 0
+        if args.selftest:
+            return selftest(args.prop)
         if args.replay:
             return replay(args.prop, args.replay, args.repo)
         return run_property(args.prop, args.tier, seed, args.repo, args.only)
